@@ -35,6 +35,10 @@ pub struct Exch {
     pub req: GReq,
     pub req_pieces: Vec<usize>,
     pub resp: GResp,
+    /// the client writes the target in absolute form, `http://<recorded destination><path and query>` (a client configured
+    /// to use a proxy): path and query reach the host unchanged (in either form)
+    #[serde(default)]
+    pub abs_form: bool,
 }
 
 #[derive(Clone, Debug, Serialize, Deserialize, Hash)]
@@ -146,7 +150,8 @@ fn exch() -> impl Strategy<Value = Exch> {
                 req.headers.insert(0, (name, "first".to_string()));
             }
         }
-        Exch { req, req_pieces, resp }
+        let abs_form = exempt.is_none() && crate::report::h64(&(&req.url, &req.method, req.headers.len())) % 8 == 0;
+        Exch { req, req_pieces, resp, abs_form }
     })
 }
 
@@ -195,7 +200,7 @@ pub fn storm_strategy() -> impl Strategy<Value = Case> {
         .prop_map(|(conns, key)| Case { conns: conns.into_iter().map(|(rec, exchanges, rounds)| ConnPlan { rec, exchanges, burst: false, rounds }).collect(), key })
 }
 
-pub const RULE: &str = "generator: 1-3 client connections run concurrently, each attributed to an authorised caller/destination and carrying 1-4 requests on one keep-alive connection (sequentially, or all written before any response is read, or - with small bodies - the list repeated 8-39 times back to back: a keep-alive storm): method in {GET,POST,PUT,DELETE,PATCH,HEAD,OPTIONS}, target (12% of the requests are the two signature-exempt uploads PUT /vmAgentLog and POST /machine/?comp=telemetrydata in any letter case), header multiset (a third of the requests repeat a header name two or three times), body 0 bytes .. exactly the 100 KiB limit (up to 300 KiB on the exempt uploads) as Content-Length or chunked with generated chunk sizes and write boundaries; host responses: status from 200..599 (no 1xx), header multiset incl. repeated Set-Cookie and a host-side x-ms-azure-host-claims (a few percent of the responses: 20-60 more fields of about 1 KB each), body 0..400 KB binary as Content-Length / chunked with generated chunk sizes / close-delimited, written in generated pieces with optional pauses, 12% of the fully framed responses on sequential connections carry 'Connection: close' and the host closes (the client, told so, continues on a new connection), the last bytes (e.g. the chunked terminator) optionally in a separate late write. Every request and response carries a unique tag. oracle: host side - method, target, de-framed body byte-equal, client header lines other than the three proxy-owned names equal as a multiset with order kept among equal names; client side - status, header lines plus exactly one x-ms-azure-host-authorization marker, body byte-equal, response tag = request tag; framing headers, Connection and Date exempt on both legs. non-trivial: an exchange with non-empty bodies in both directions and a multi-frame response, or >= 3 requests on one connection with >= 2 connections active; distinct by hash of the case.";
+pub const RULE: &str = "generator: 1-3 client connections run concurrently, each attributed to an authorised caller/destination and carrying 1-4 requests on one keep-alive connection (sequentially, or all written before any response is read, or - with small bodies - the list repeated 8-39 times back to back: a keep-alive storm): method in {GET,POST,PUT,DELETE,PATCH,HEAD,OPTIONS}, target (one in eight written in absolute form, http://<recorded destination><path and query>; 12% of the requests are the two signature-exempt uploads PUT /vmAgentLog and POST /machine/?comp=telemetrydata in any letter case), header multiset (a third of the requests repeat a header name two or three times), body 0 bytes .. exactly the 100 KiB limit (up to 300 KiB on the exempt uploads) as Content-Length or chunked with generated chunk sizes and write boundaries; host responses: status from 200..599 (no 1xx), header multiset incl. repeated Set-Cookie and a host-side x-ms-azure-host-claims (a few percent of the responses: 20-60 more fields of about 1 KB each), body 0..400 KB binary as Content-Length / chunked with generated chunk sizes / close-delimited, written in generated pieces with optional pauses, 12% of the fully framed responses on sequential connections carry 'Connection: close' and the host closes (the client, told so, continues on a new connection), the last bytes (e.g. the chunked terminator) optionally in a separate late write. Every request and response carries a unique tag. oracle: host side - method, target, de-framed body byte-equal, client header lines other than the three proxy-owned names equal as a multiset with order kept among equal names; client side - status, header lines plus exactly one x-ms-azure-host-authorization marker, body byte-equal, response tag = request tag; framing headers, Connection and Date exempt on both legs. non-trivial: an exchange with non-empty bodies in both directions and a multi-frame response, or >= 3 requests on one connection with >= 2 connections active; distinct by hash of the case.";
 
 const EXEMPT: &[&str] = &["content-length", "transfer-encoding", "connection", "keep-alive", "date", "te", "trailer", "upgrade"];
 const PROXY_OWNED: &[&str] = &["x-ms-azure-host-claims", "x-ms-azure-host-date", "x-ms-azure-host-authorization"];
@@ -278,7 +283,13 @@ pub fn eval(rig: &Rig, case: &Case, stats: &mut Stats) -> Outcome {
                     let rounds = c.rounds.max(1);
                     let wire_of = |ei: usize, round: u8| -> Vec<u8> {
                         let e = &c.exchanges[ei];
-                        e.req.wire(&e.req.url.text(), &[("x-tag".to_string(), format!("c{}e{}r{}", ci, ei, round).into_bytes())])
+                        let target = if e.abs_form {
+                            let (ip, port) = c.rec.dest.addr();
+                            format!("http://{}.{}.{}.{}:{}{}", ip[0], ip[1], ip[2], ip[3], port, e.req.url.text())
+                        } else {
+                            e.req.url.text()
+                        };
+                        e.req.wire(&target, &[("x-tag".to_string(), format!("c{}e{}r{}", ci, ei, round).into_bytes())])
                     };
                     if c.burst {
                         // writer thread: a client that pipelines must keep reading while it writes
@@ -344,6 +355,9 @@ pub fn eval(rig: &Rig, case: &Case, stats: &mut Stats) -> Outcome {
             }
             stats.class(&format!("resp-framing:{}", ["content-length", "chunked", "close-delimited"][e.resp.framing as usize % 3]));
             stats.class(if e.req.chunked.is_some() && !e.req.body.is_empty() { "req-framing:chunked" } else { "req-framing:content-length" });
+            if e.abs_form {
+                stats.class("request:absolute-form-target");
+            }
             if e.req.body.len() == 102_400 {
                 stats.class("req-body:exactly-the-limit");
             }
@@ -379,7 +393,11 @@ pub fn eval(rig: &Rig, case: &Case, stats: &mut Stats) -> Outcome {
         if r.listener != want_listener {
             return Outcome::fail("transparency:request-at-wrong-host", format!("{} at {} expected {}", tag, r.listener, want_listener));
         }
-        if r.method != e.req.method || r.target != e.req.url.text() {
+        let abs_text = {
+            let (ip, port) = case.conns[ci].rec.dest.addr();
+            format!("http://{}.{}.{}.{}:{}{}", ip[0], ip[1], ip[2], ip[3], port, e.req.url.text())
+        };
+        if r.method != e.req.method || (r.target != e.req.url.text() && !(e.abs_form && r.target == abs_text)) {
             return Outcome::fail("transparency:request-line-changed", format!("sent {} {} host saw {} {}", e.req.method, e.req.url.text(), r.method, r.target));
         }
         if r.body != e.req.body {
